@@ -62,7 +62,7 @@ func (vfs *OrefaFS) Chdir(dir string) error {
 		return &fs.PathError{Op: op, Path: dir, Err: vfs.errNotFound(absPath, vfs.err.NoSuchFile)}
 	}
 
-	if !nd.mode.IsDir() {
+	if !nd.dir {
 		err := vfs.err.NotADirectory
 		if vfs.OSType() == avfs.OsWindows {
 			err = avfs.ErrWinDirNameInvalid
@@ -468,7 +468,7 @@ func (vfs *OrefaFS) Mkdir(name string, perm fs.FileMode) error {
 		return &fs.PathError{Op: op, Path: name, Err: vfs.errNotFoundNoLock(absPath, vfs.err.NoSuchDir)}
 	}
 
-	if !parent.mode.IsDir() {
+	if !parent.dir {
 		return &fs.PathError{Op: op, Path: name, Err: vfs.err.NotADirectory}
 	}
 
@@ -494,7 +494,7 @@ func (vfs *OrefaFS) MkdirAll(path string, perm fs.FileMode) error {
 
 	child, childOk := vfs.nodes[absPath]
 	if childOk {
-		if child.mode.IsDir() {
+		if child.dir {
 			return nil
 		}
 
@@ -512,7 +512,7 @@ func (vfs *OrefaFS) MkdirAll(path string, perm fs.FileMode) error {
 		nd, ok := vfs.nodes[dirName]
 		if ok {
 			parent = nd
-			if !parent.mode.IsDir() {
+			if !parent.dir {
 				return &fs.PathError{Op: op, Path: dirName, Err: vfs.err.NotADirectory}
 			}
 
@@ -583,7 +583,7 @@ func (vfs *OrefaFS) OpenFile(name string, flag int, perm fs.FileMode) (avfs.File
 			return (*OrefaFile)(nil), &fs.PathError{Op: op, Path: name, Err: vfs.errNotFound(absPath, vfs.err.NoSuchDir)}
 		}
 
-		if !parent.mode.IsDir() {
+		if !parent.dir {
 			return (*OrefaFile)(nil), &fs.PathError{Op: op, Path: name, Err: vfs.err.NotADirectory}
 		}
 
@@ -602,7 +602,7 @@ func (vfs *OrefaFS) OpenFile(name string, flag int, perm fs.FileMode) (avfs.File
 
 		child = vfs.createFile(parent, absPath, fileName, perm)
 	} else {
-		if child.mode.IsDir() {
+		if child.dir {
 			if om&avfs.OpenCreateExcl != 0 {
 				return (*OrefaFile)(nil), &fs.PathError{Op: op, Path: name, Err: vfs.err.FileExists}
 			}
@@ -704,7 +704,7 @@ func (vfs *OrefaFS) Remove(name string) error {
 	child.mu.Lock()
 	defer child.mu.Unlock()
 
-	if child.mode.IsDir() && len(child.children) != 0 {
+	if child.dir && len(child.children) != 0 {
 		return &fs.PathError{Op: op, Path: name, Err: vfs.err.DirNotEmpty}
 	}
 
@@ -761,7 +761,7 @@ func (vfs *OrefaFS) RemoveAll(path string) error {
 }
 
 func (vfs *OrefaFS) removeAll(absPath string, rootNode *node) {
-	if rootNode.mode.IsDir() {
+	if rootNode.dir {
 		for fileName, nd := range rootNode.children {
 			path := absPath + string(vfs.PathSeparator()) + fileName
 
@@ -798,7 +798,7 @@ func (vfs *OrefaFS) Rename(oldname, newname string) error {
 		return &os.LinkError{Op: op, Old: oldname, New: newname, Err: vfs.errNotFound(oAbsPath, vfs.err.NoSuchFile)}
 	}
 
-	if !oParent.mode.IsDir() {
+	if !oParent.dir {
 		return &os.LinkError{Op: op, Old: oldname, New: newname, Err: vfs.err.NotADirectory}
 	}
 
@@ -807,7 +807,7 @@ func (vfs *OrefaFS) Rename(oldname, newname string) error {
 	}
 
 	// The parent of newname must be a directory.
-	if !nParent.mode.IsDir() {
+	if !nParent.dir {
 		return &os.LinkError{Op: op, Old: oldname, New: newname, Err: vfs.err.NotADirectory}
 	}
 
@@ -816,7 +816,7 @@ func (vfs *OrefaFS) Rename(oldname, newname string) error {
 	}
 
 	// Nothing can replace a directory (as os.Rename).
-	if nChildOk && nChild.mode.IsDir() {
+	if nChildOk && nChild.dir {
 		// The same directory under another spelling of its path: nothing to do (as rename(2)).
 		if nChild == oChild && oldname != newname {
 			return nil
@@ -831,13 +831,13 @@ func (vfs *OrefaFS) Rename(oldname, newname string) error {
 	}
 
 	// The root directory can't be renamed and a directory can't be moved into itself.
-	if oChild.mode.IsDir() &&
+	if oChild.dir &&
 		(oChild == oParent || strings.HasPrefix(nAbsPath, oAbsPath+string(vfs.PathSeparator()))) {
 		return &os.LinkError{Op: op, Old: oldname, New: newname, Err: vfs.err.InvalidArgument}
 	}
 
 	// A directory can't replace a file.
-	if oChild.mode.IsDir() && nChildOk {
+	if oChild.dir && nChildOk {
 		err := vfs.err.NotADirectory
 		if vfs.OSType() == avfs.OsWindows {
 			err = avfs.ErrWinAccessDenied
@@ -876,7 +876,7 @@ func (vfs *OrefaFS) Rename(oldname, newname string) error {
 	vfs.nodes[nAbsPath] = oChild
 	delete(vfs.nodes, oAbsPath)
 
-	if oChild.mode.IsDir() {
+	if oChild.dir {
 		oRoot := oAbsPath + string(vfs.PathSeparator())
 
 		for absPath, node := range vfs.nodes {
@@ -956,7 +956,7 @@ func (vfs *OrefaFS) stat(path, op string) (fs.FileInfo, error) {
 			return nil, &fs.PathError{Op: op, Path: path, Err: vfs.errNotFound(absPath, vfs.err.NoSuchDir)}
 		}
 
-		if parent.mode.IsDir() {
+		if parent.dir {
 			return nil, &fs.PathError{Op: op, Path: path, Err: vfs.err.NoSuchFile}
 		}
 
@@ -1038,7 +1038,7 @@ func (vfs *OrefaFS) Truncate(name string, size int64) error {
 		return &fs.PathError{Op: op, Path: name, Err: vfs.errNotFound(absPath, vfs.err.NoSuchFile)}
 	}
 
-	if child.mode.IsDir() {
+	if child.dir {
 		if vfs.OSType() == avfs.OsWindows {
 			op = "open"
 		}
